@@ -88,6 +88,15 @@ impl Monitor for C10 {
         vec!["windows_checked", "sequences_generated", "attainment_points_checked", "jitter_composition_points_compared", "sequences_enumerated_exhaustively"]
     }
 
+    fn unguarded_library_failure(&self, c: &crate::framework::Caught, rep: &mut CaseReport) -> bool {
+        // this property's objects must answer every query: a library panic / runaway loop that surfaces
+        // outside a guarded call (e.g. while the monitor inspects the shared cache) is a violation too
+        rep.violation(
+            format!("C10 kind=library-{}-outside-a-guarded-call class={}", c.kind, c.class()),
+            crate::jobj! {"caught" => c.to_json(), "case" => rep.sample.clone()},
+        );
+        true
+    }
     fn run_case(&self, _index: u64, seed: u64, _tier: Tier, rep: &mut CaseReport) {
         let mut rng = Rng::new(seed);
         let g = ArrGen {
